@@ -55,8 +55,25 @@ func runC13(c *CaseCtx) {
 			// records of this transaction), later transactions rotate further
 			var ops []Op
 			b := g.bucket()
+			if r.Intn(3) == 0 {
+				// ... or made of many small records (70-130) that write the same few keys again and again: the last
+				// write of each key has to win
+				n := 70 + r.Intn(60)
+				for i := 0; i < n; i++ {
+					k := u.KVKeys[r.Intn(min(len(u.KVKeys), 6))]
+					if r.Intn(6) == 0 {
+						ops = append(ops, Op{K: "Delete", B: b, Key: k})
+					} else {
+						g.ctr++
+						ops = append(ops, Op{K: "Put", B: b, Key: k, Val: []byte(fmt.Sprintf("s%d", g.ctr))})
+					}
+				}
+			}
 			perm := r.Perm(len(u.KVKeys))
-			for need, i := int(cfg.Seg)*(1+r.Intn(3)), 0; need > 0 && len(ops) <= 90; i++ {
+			if len(ops) > 0 {
+				perm = nil
+			}
+			for need, i := int(cfg.Seg)*(1+r.Intn(3)), 0; need > 0 && len(ops) <= 90 && perm != nil; i++ {
 				var o Op
 				if i < len(perm) { // every key once first: the newest version of a key may then lie in a middle segment
 					k := u.KVKeys[perm[i]]
@@ -295,4 +312,11 @@ func init() {
 			return ""
 		},
 	})
+}
+
+func min(a, b int) int {
+	if a < b {
+		return a
+	}
+	return b
 }
